@@ -6,6 +6,7 @@ import (
 	"fmt"
 	"os"
 	"os/exec"
+	"runtime/debug"
 	"strings"
 	"sync"
 	"sync/atomic"
@@ -56,6 +57,9 @@ func runHist(c *caseT) string {
 	for k, op := range c.Ops {
 		switch op.Op {
 		case "parse", "retrieve":
+			for i := 0; i < op.Burn; i++ {
+				jsonpath.Parse("$")
+			}
 			rec := &recorder{}
 			var cfgp *jsonpath.Config
 			if op.CfgRef > 0 && cfgs[op.CfgRef-1] != nil {
@@ -490,4 +494,56 @@ func coldChild() {
 		}
 	}
 	fmt.Printf("COLD=ok:%d\n", threads*len(parses))
+}
+
+// runDeepDoc: a source value nested hundreds of thousands of levels deep, built in memory (no decoder would produce it), in a
+// child process whose goroutine stacks are limited to 64 MB: a retrieval must not need stack in proportion to the nesting
+// depth of the value it walks.  c.Threads is the depth; every path of the scenario must return exactly one value.
+func runDeepDoc(c *caseT) string {
+	self, _ := os.Executable()
+	cmd := exec.Command(self, "deepchild")
+	raw, _ := json.Marshal(c)
+	cmd.Stdin = strings.NewReader(string(raw) + "\n")
+	out, err := cmd.CombinedOutput()
+	text := strings.TrimSpace(string(out))
+	if err != nil {
+		head := text
+		if len(head) > 200 {
+			head = head[:200]
+		}
+		return c.ID + "\tDEEP=died:" + hx(head)
+	}
+	lines := strings.Split(text, "\n")
+	return c.ID + "\t" + lines[len(lines)-1]
+}
+
+func deepChild() {
+	debug.SetMaxStack(64 << 20)
+	in := bufio.NewReaderSize(os.Stdin, 1<<20)
+	line, _ := in.ReadString('\n')
+	var c caseT
+	if err := json.Unmarshal([]byte(line), &c); err != nil {
+		fmt.Println("DEEP=badcase")
+		os.Exit(0)
+	}
+	var v interface{} = map[string]interface{}{"a": 1.0}
+	for i := 0; i < c.Threads; i++ {
+		if i%2 == 0 {
+			v = []interface{}{v}
+		} else {
+			v = map[string]interface{}{"n": v}
+		}
+	}
+	for _, op := range c.Ops {
+		if op.Op != "parse" {
+			continue
+		}
+		res, err := jsonpath.Retrieve(unhex(op.Path), v)
+		if err != nil || len(res) != 1 {
+			fmt.Printf("DEEP=bad:%s:%d:%v\n", op.Path, len(res), err != nil)
+			os.Exit(0)
+		}
+	}
+	fmt.Printf("DEEP=ok:%d\n", c.Threads)
+	os.Exit(0)
 }
